@@ -688,3 +688,18 @@ def r11r_rules(repo, sink):
             why = f"raises {r.name} ({r.exc!r})"
         sink.check(why is None, "R11", f"rules:attempt-every-call:cache={cache}", f,
                    ok="an outstanding exchange with rule-derived info is attempted in every call", bad=why or "")
+
+
+def r11s_static_slots(repo, sink):
+    """The connect helper's scenarios that involve static outputs, as a rule of their own (C20: a static output serves its one
+    publication whatever the consumers' times are - also next to timed outputs of a producer that starts later)."""
+    from ..report import Sink
+    tmp = Sink()
+    r11_r12_connect(repo, tmp)
+    n = 0
+    for ob in tmp.obs:
+        if "static" in ob.key:
+            ob.rule = "R11s"
+            sink.obs.append(ob)
+            n += 1
+    sink.floor("R11s", "connect scenarios with static outputs", n, 5)
